@@ -99,6 +99,19 @@ def seeing_to_r0(seeing, lamda=500.E-9):
     return 0.98*lamda/(seeing*numpy.pi/(180.*3600.))
 
 
+def _along_axis(profile, other, axis):
+    """
+    A 1-d profile (one altitude, wind or Cn2 vector shared by a table of
+    profiles) lies along the integration axis of the table it is combined with,
+    not along the last axis, which is where plain broadcasting would put it.
+    """
+    if numpy.ndim(profile) == 1 and numpy.ndim(other) > 1:
+        shape = [1] * numpy.ndim(other)
+        shape[axis] = -1
+        return numpy.reshape(profile, shape)
+    return profile
+
+
 def coherenceTime(cn2, v, lamda=500.E-9, axis=-1):
     """
     Calculates the coherence time from profiles of the Cn2 and wind velocity
@@ -114,6 +127,7 @@ def coherenceTime(cn2, v, lamda=500.E-9, axis=-1):
     Returns:
         coherence time in seconds
     """
+    cn2, v = _along_axis(cn2, v, axis), _along_axis(v, cn2, axis)
     Jv = (cn2*(v**(5./3.))).sum(axis)
     tau0 = (Jv**(-3./5.))*0.0581*lamda**(6./5.)
     return tau0
@@ -134,6 +148,7 @@ def isoplanaticAngle(cn2, h, lamda=500.E-9, axis=-1):
     Returns:
         isoplanatic angle in arcseconds
     """
+    cn2, h = _along_axis(cn2, h, axis), _along_axis(h, cn2, axis)
     Jh = (cn2*(h**(5./3.))).sum(axis)
     iso = 0.0581*lamda**(6./5.)*Jh**(-3./5.)*180.*3600./numpy.pi
     return iso
@@ -155,6 +170,7 @@ def rytov_variance(cn2, h, lamda=500.E-9, axis=-1):
         Rytov variance (float)
     """
     k = 2. * numpy.pi / lamda
+    cn2, h = _along_axis(cn2, h, axis), _along_axis(h, cn2, axis)
     return 2.25 * k**(7./6.) * (cn2*h**(5./6.)).sum(axis)
 
 
